@@ -50,7 +50,8 @@ def required_cells(tier):
             'search-path-shape:plain-directories-named-like-the-packages-come-last:found',
             'search-path-shape:empty-string-entry:found',
             'import:requested-file-wins-a-name-conflict', 'import:zip-archive:ok', 'import:zip-archive:raises',
-            'resolve:through-a-symlink-below-the-root', 'import:submodule-name-rebound-by-the-package']
+            'resolve:through-a-symlink-below-the-root', 'import:submodule-name-rebound-by-the-package',
+            'import:package-main-file']
 
 
 def build(rng, root, uniq):
@@ -328,8 +329,10 @@ def check_tree(ctx, idx, seed):
                 ctx.cell('resolve:extension-module')
                 continue        # located only: the file is empty
             # ---- import by path
+            if name == '__main__':
+                continue        # (a __main__.py outside any package: that name belongs to the running program)
             if parts[-1] == '__main__':
-                continue
+                ctx.cell('import:package-main-file')
             # sometimes the tree is already on sys.path (front / middle) when a module is imported by its path
             original_path = list(sys.path)
             where = rng.choice(['absent', 'absent', 'front', 'middle'])
